@@ -173,7 +173,7 @@ def pax_hostile_archives(r, n):
         h[148:156] = b"%06o\0 " % s
 
     for _ in range(n):
-        k = r.randrange(9)
+        k = r.randrange(10)
         v = r.choice(EXTREME)
         tail = member(None, name=b"after", data=b"x" * 10) + b"\0" * 1024
         if k == 0:      # record length prefix
@@ -230,6 +230,13 @@ def pax_hostile_archives(r, n):
             recs = r.choice([b"SCHILY.xattr.", b"SCHILY.xattr.user.", b"LIBARCHIVE.xattr.", b"LIBARCHIVE.xattr.user.%", b"LIBARCHIVE.xattr.user.%zz", b"LIBARCHIVE.xattr.user.a%4"])
             val = r.choice([b"", b"====", b"A", b"AAAA" * 3000, b"\xff\xfe", b"QUJD"])
             out.append(("pax-xattr", "%r=%r" % (recs, val[:20]), member(tarmodel._pax_record(recs, val)) + tail))
+        elif k == 8:    # the sparse dialects mixed in one extended header, records in any order and repeated (well-formed numbers)
+            pool = [(b"GNU.sparse.offset", b"0"), (b"GNU.sparse.numbytes", b"512"), (b"GNU.sparse.offset", b"4096"), (b"GNU.sparse.numbytes", b"8"),
+                    (b"GNU.sparse.map", b"0,512"), (b"GNU.sparse.map", b"0,8,4096,8"), (b"GNU.sparse.size", b"8192"), (b"GNU.sparse.numblocks", b"2"),
+                    (b"GNU.sparse.major", b"1"), (b"GNU.sparse.minor", b"0"), (b"GNU.sparse.realsize", b"8192"), (b"GNU.sparse.name", b"sp"), (b"size", b"520")]
+            seq = [r.choice(pool) for _ in range(r.choice([2, 3, 4, 6, 9]))]
+            recs = b"".join(tarmodel._pax_record(a, b2) for a, b2 in seq)
+            out.append(("pax-sparse-mixed", " ".join(a.decode().split(".")[-1] for a, _ in seq), member(recs) + tail))
         else:           # record without newline / without '=' / length pointing past the end
             recs = r.choice([b"12 path=abc", b"30 path=abc\n", b"11 pathabcd\n", b"3 =\n", b"5 a=\n\0\0\0", b"012 path=ab\n", b"+12 path=a\n"])
             out.append(("pax-record-syntax", "%r" % recs, member(recs) + tail))
